@@ -228,6 +228,22 @@ theorem structure_buffer_layout (m : LMol) (cm : CMol) (h : encStructure m = .ok
         molWords m = .ok ws ∧ rowBonds m.ids (ws.map (·.v1)) ms = .ok bs ∧ slice? cm.bonds ca.from_ ca.to_ = some bs :=
   encStructure_layout m cm h hkeys hnd
 
+/-- **layout of a query component buffer**: when `_cython_compiled_query` succeeds, step `j` of the linearised component sits at
+    index `j` with its four masks (`stepMask`: the masks of its atom, with the bond to its parent), its number, the index of its parent
+    (`back`), and `q_from[j] … q_to[j]` delimit exactly its encoded closure bonds (`closure[j]` = their number; closure-free atoms have
+    an empty range) — for a linearisation with distinct fronts and a closures dict with distinct keys -/
+theorem query_buffer_layout (q : LQuery) (cl : Iso.Closures) (comp : List Iso.Step) (cq : CQuery)
+    (h : encComponent q cl comp = .ok cq) (hF : (comp.map (·.front)).Nodup) (hcl : (cl.map (·.1)).Nodup) :
+    cq.atoms.length = comp.length ∧
+    ∀ (j : Nat) (s : Iso.Step), comp[j]? = some s →
+      ∃ (qa : CQAtom) (w : Words) (qb : List CBond),
+        cq.atoms[j]? = some qa ∧ stepMask q s = .ok w ∧ (⟨qa.m1, qa.m2, qa.m3, qa.m4⟩ : Words) = w ∧ qa.mapping = s.front ∧
+        (∀ b, s.back = some b → indexOf? (comp.map (·.front)) b = some qa.back) ∧ (s.back = none → qa.back = 0) ∧
+        slice? cq.bonds qa.from_ qa.to_ = some qb ∧ qb.length = qa.closure ∧
+        (∀ ms, cl.lookup s.front = some ms → ms ≠ [] → closureBonds q (comp.map (·.front)) s.front ms = .ok qb) ∧
+        ((cl.lookup s.front = none ∨ cl.lookup s.front = some []) → qb = []) :=
+  encComponent_layout q cl comp cq h hF hcl
+
 /-- well-formed inputs inside the documented domain, for the end-to-end statement -/
 structure SearchDomain (q : LQuery) (m : LMol) : Prop where
   qwf : q.graph.WF = true
